@@ -78,6 +78,7 @@ type Exec struct {
 	shapes  map[string][]int
 	paramRoot map[*Cell]paramRootInfo
 	inlineDepth int
+	caseIdx int // 0: no case split; k>0: k-th case; -1: exhaustiveness obligation only
 }
 
 func (ex *Exec) note(f string, a ...interface{}) {
@@ -580,6 +581,17 @@ func (ex *Exec) run() (err error) {
 		}
 		st.assume(ceReq.evalBool(r.Expr))
 	}
+	if len(ex.ct.Cases) > 0 {
+		if ex.caseIdx == -1 {
+			var cs []*Term
+			for _, c := range ex.ct.Cases {
+				cs = append(cs, ceReq.evalBool(c.Expr))
+			}
+			ex.oblige(st, "cases-exhaustive", "cases-exhaustive", Or(cs...), nil)
+			return nil
+		}
+		st.assume(ceReq.evalBool(ex.ct.Cases[ex.caseIdx-1].Expr))
+	}
 	ex.propagateEqualities(st)
 	ex.entry = st.clone()
 	// execute
@@ -762,7 +774,7 @@ func (ex *Exec) checkPost(f *State, n int) {
 	}
 	// vacuity canary: the path condition at this return must be satisfiable
 	o := &Obligation{Name: fmt.Sprintf("%s/canary@ret%d%s", ex.fnName, n, ex.modeSuffix()), Prop: ex.ct.Props, Func: ex.fi.Key, Kind: "canary", Mode: ex.mode,
-		Assumes: append([]*Term{}, f.pc...), Goal: False, Canary: true, Reveal: ex.reveal, Lemmas: nil}
+		Assumes: append([]*Term{}, f.pc...), Goal: False, Canary: true, Reveal: ex.reveal, Lemmas: ex.lemmas}
 	ex.obls = append(ex.obls, o)
 }
 
@@ -828,6 +840,13 @@ func (ex *Exec) execStmt(st *State, s ast.Stmt) []*State {
 		return []*State{st}
 	case *ast.AssignStmt:
 		ex.execAssign(st, n)
+		if n.Tok == token.DEFINE && len(ex.ct.Asserts) > 0 {
+			for _, l := range n.Lhs {
+				if id, ok := l.(*ast.Ident); ok && id.Name != "_" {
+					ex.ghostAsserts([]*State{st}, "def:"+id.Name, n.End(), n)
+				}
+			}
+		}
 		return []*State{st}
 	case *ast.IncDecStmt:
 		r := ex.lvalue(st, n.X)
@@ -1237,33 +1256,91 @@ func (ex *Exec) assignedRoots(n ast.Node) map[types.Object]bool {
 				}
 			}
 		case *ast.CallExpr:
-			// arguments that are pointers or slices passed to callees with a modifies clause, or to unknown callees
-			ct, _, _ := ex.calleeContract(s)
-			if ct != nil && len(ct.Modifies) == 0 {
+			ct, fn, gadget := ex.calleeContract(s)
+			if ct != nil {
+				// only what the callee's modifies clause names
+				for _, m := range ct.Modifies {
+					root, fields := splitPath(m)
+					var argExpr ast.Expr
+					if gadget != nil {
+						recvName := ""
+						if fi := ex.prog.Funcs[ct.Key]; fi != nil && fi.Sig.Recv() != nil {
+							recvName = fi.Sig.Recv().Name()
+						}
+						if root == recvName && len(fields) > 0 {
+							if cl, ok := s.Args[1].(*ast.CompositeLit); ok {
+								stT, _ := gadget.Underlying().(*types.Struct)
+								for i, el := range cl.Elts {
+									if kv, ok := el.(*ast.KeyValueExpr); ok {
+										if id, ok := kv.Key.(*ast.Ident); ok && id.Name == fields[0] {
+											argExpr = kv.Value
+										}
+									} else if stT != nil && i < stT.NumFields() && stT.Field(i).Name() == fields[0] {
+										argExpr = el
+									}
+								}
+							} else {
+								argExpr = s.Args[1]
+							}
+						}
+					} else if fn != nil {
+						sig := fn.Type().(*types.Signature)
+						names := []string{}
+						var exprs []ast.Expr
+						if sig.Recv() != nil {
+							if sel, ok := s.Fun.(*ast.SelectorExpr); ok {
+								exprs = append(exprs, sel.X)
+							}
+						}
+						exprs = append(exprs, s.Args...)
+						if ct.Extern {
+							names = ct.Params
+						} else {
+							if sig.Recv() != nil {
+								names = append(names, sig.Recv().Name())
+							}
+							for i := 0; i < sig.Params().Len(); i++ {
+								names = append(names, sig.Params().At(i).Name())
+							}
+						}
+						for i, n := range names {
+							if n == root && i < len(exprs) {
+								argExpr = exprs[i]
+							}
+						}
+					}
+					if argExpr != nil {
+						if o := rootOf(argExpr); o != nil {
+							if _, isVar := o.(*types.Var); isVar {
+								roots[o] = true
+							}
+						}
+					}
+				}
 				return true
 			}
 			var args []ast.Expr
 			args = append(args, s.Args...)
 			if sel, ok := s.Fun.(*ast.SelectorExpr); ok {
-				args = append(args, sel.X)
+				if id := identOf(sel.X); id == nil {
+					args = append(args, sel.X)
+				} else if _, isPkg := ex.info.Uses[id].(*types.PkgName); !isPkg {
+					args = append(args, sel.X)
+				}
 			}
 			for _, a := range args {
-				ast.Inspect(a, func(y ast.Node) bool {
-					if e, ok := y.(ast.Expr); ok {
-						t := ex.info.TypeOf(e)
-						if t != nil {
-							switch t.Underlying().(type) {
-							case *types.Slice, *types.Pointer, *types.Array:
-								if o := rootOf(e); o != nil {
-									if _, isVar := o.(*types.Var); isVar {
-										roots[o] = true
-									}
-								}
-							}
+				t := ex.info.TypeOf(a)
+				if t == nil {
+					continue
+				}
+				switch t.Underlying().(type) {
+				case *types.Slice, *types.Pointer, *types.Array, *types.Interface:
+					if o := rootOf(a); o != nil {
+						if v, isVar := o.(*types.Var); isVar && v != ex.apiObj {
+							roots[o] = true
 						}
 					}
-					return true
-				})
+				}
 			}
 		}
 		return true
@@ -1455,6 +1532,7 @@ func (ex *Exec) execLoopInv(st *State, spec *LoopSpec, ord int, node ast.Node, c
 		h.store[c] = ex.havocLike(h, old, kindOf(v.Type()), v.Name())
 	}
 	sort.Strings(names)
+	ex.havocAliases(st, h, roots)
 	if h.ok != nil && ex.touchesAPI(body) {
 		h.ok = Fresh("ok", SBool)
 	}
@@ -1463,6 +1541,7 @@ func (ex *Exec) execLoopInv(st *State, spec *LoopSpec, ord int, node ast.Node, c
 			h.assume(t)
 		}
 	}
+	ex.propagateEqualities(h)
 	// 3. body
 	bs := h.clone()
 	ex.cur = bs
@@ -1504,7 +1583,7 @@ func (ex *Exec) execLoopInv(st *State, spec *LoopSpec, ord int, node ast.Node, c
 			}
 			// canary for the loop body
 			ex.obls = append(ex.obls, &Obligation{Name: fmt.Sprintf("%s/loop#%d/canary.%d%s", ex.fnName, ord, k, ex.modeSuffix()), Prop: ex.ct.Props, Func: ex.fi.Key,
-				Kind: "canary", Mode: ex.mode, Assumes: append([]*Term{}, o.pc...), Goal: False, Canary: true, Reveal: ex.reveal})
+				Kind: "canary", Mode: ex.mode, Assumes: append([]*Term{}, o.pc...), Goal: False, Canary: true, Reveal: ex.reveal, Lemmas: ex.lemmas})
 		case ctlBreak:
 			o.ctl = ctlNormal
 			exits = append(exits, o)
@@ -1514,6 +1593,36 @@ func (ex *Exec) execLoopInv(st *State, spec *LoopSpec, ord int, node ast.Node, c
 	}
 	exits = append([]*State{exit}, exits...)
 	return exits
+}
+
+// havocContents makes a fresh value for an in-place modification: slice lengths are preserved.
+func (ex *Exec) havocContents(st *State, old Val, hint string) Val {
+	if x, ok := old.(*SliceV); ok {
+		if x.IsV {
+			vs := make([]Val, len(x.Vec))
+			for i := range vs {
+				vs[i] = ex.havocContents(st, x.Vec[i], fmt.Sprintf("%s_%d", hint, i))
+			}
+			return &SliceV{Elem: x.Elem, Len: x.Len, Vec: vs, IsV: true, Tag: x.Tag}
+		}
+		nv := ex.freshVal(st, &Kind{K: "slice", Elem: x.Elem}, hint).(*SliceV)
+		m := map[*Term]*Term{nv.Len: x.Len}
+		ex.substState(st, m)
+		r := *nv
+		r.Len = x.Len
+		r.Tag = x.Tag
+		if x.Lens != nil {
+			r.Lens = x.Lens
+		}
+		return &r
+	}
+	if x, ok := old.(SV); ok {
+		if x.Lit != nil || true {
+			t := Fresh(hint, x.T.Sort)
+			return SV{T: t}
+		}
+	}
+	return ex.havocLike(st, old, nil, hint)
 }
 
 // havocLike makes a fresh value of the same shape as old (explicit vectors keep their length).
@@ -1750,4 +1859,71 @@ func (ex *Exec) touchesAPI(n ast.Node) bool {
 		return !found
 	})
 	return found
+}
+
+func identOf(e ast.Expr) *ast.Ident {
+	id, _ := e.(*ast.Ident)
+	return id
+}
+
+// havocAliases: a slice variable havoced by a loop may or may not still alias what it aliased before the loop,
+// so everything that shared its backing array before the loop gets unknown contents, and the havoced variable
+// itself is treated as a distinct array from then on.
+func (ex *Exec) havocAliases(pre, h *State, roots map[types.Object]bool) {
+	tags := map[int]bool{}
+	rootCells := map[*Cell]bool{}
+	for o := range roots {
+		if c, ok := ex.cells[o]; ok {
+			rootCells[c] = true
+			if s, ok := pre.store[c].(*SliceV); ok && s.Tag > 0 {
+				tags[s.Tag] = true
+				if ns, ok := h.store[c].(*SliceV); ok && ns != s {
+					cp := *ns
+					cp.Tag = newTag()
+					h.store[c] = &cp
+				}
+			}
+		}
+	}
+	if len(tags) == 0 {
+		return
+	}
+	var rec func(v Val, c *Cell, path []Acc) Val
+	rec = func(v Val, c *Cell, path []Acc) Val {
+		switch x := v.(type) {
+		case *SliceV:
+			if tags[x.Tag] {
+				ex.frameCheck(&RefV{Cell: c, Path: path}, true, nil)
+				nv := ex.havocContents(h, x, c.name).(*SliceV)
+				cp := *nv
+				cp.Tag = newTag()
+				return &cp
+			}
+		case *StructV:
+			var nf map[string]Val
+			for k, fv := range x.F {
+				if r := rec(fv, c, append(append([]Acc{}, path...), Acc{Field: k})); r != nil {
+					if nf == nil {
+						nf = map[string]Val{}
+						for kk, vv := range x.F {
+							nf[kk] = vv
+						}
+					}
+					nf[k] = r
+				}
+			}
+			if nf != nil {
+				return &StructV{K: x.K, F: nf}
+			}
+		}
+		return nil
+	}
+	for c, v := range pre.store {
+		if rootCells[c] {
+			continue
+		}
+		if r := rec(v, c, nil); r != nil {
+			h.store[c] = r
+		}
+	}
 }
